@@ -16,7 +16,7 @@ import (
 // functions, so the surface families cannot reach them; several of them can
 // kill the process (unbounded Go recursion).
 
-var bridgeNames = []string{"0", "7", "foo", "length", "A", "a", "Get"}
+var bridgeNames = []string{"0", "1", "7", "foo", "length", "A", "a", "Get", "X", "F", "G"}
 
 // %X is the bridged object, %P the property name literal.
 var bridgeOps = []struct{ Name, Src string }{
@@ -25,6 +25,11 @@ var bridgeOps = []struct{ Name, Src string }{
 	{"set-float", `%X[%P] = 1.5`},
 	{"set-neg", `%X[%P] = -1`},
 	{"set-2^32", `%X[%P] = 4294967296`},
+	{"set-null", `%X[%P] = null`},
+	{"set-array", `%X[%P] = [1]`},
+	{"set-function", `%X[%P] = function(){ throw 1 }; %X[%P]()`},
+	{"set-self", `%X[%P] = %X`},
+	{"member-of-member", `%X[%P].X = 8; %X[%P][0] = 9; %X[%P].a = 7`},
 	{"set-string", `%X[%P] = "x"`},
 	{"set-object", `%X[%P] = {}`},
 	{"set-undefined", `%X[%P] = undefined`},
@@ -51,7 +56,7 @@ func usesName(src string) bool { return strings.Contains(src, "%P") }
 func runBridge(r *rc) {
 	defer muteStdout()()
 	base := (*otto.Otto)(nil)
-	for _, b := range []string{"struct", "map", "slice", "array", "nmap"} {
+	for _, b := range allBridged {
 		for _, op := range bridgeOps {
 			for ni, name := range bridgeNames {
 				if ni > 0 && !usesName(op.Src) {
@@ -106,7 +111,7 @@ func runBridge(r *rc) {
 			}
 		}
 	}
-	r.Bound("bridged_kinds", "5")
+	r.Bound("bridged_kinds", fmt.Sprint(len(allBridged)))
 	r.Bound("operations", fmt.Sprint(len(bridgeOps)))
 	r.Bound("property_names", fmt.Sprint(len(bridgeNames)))
 }
